@@ -99,7 +99,9 @@ pub fn install_panic_hook() {
                 *p = Some(msg);
             }
         });
-        if !QUIET.with(|q| q.get()) && !QUIET_ALL.load(SeqCst) {
+        // threads of the blocking gate (vendored tokio) belong to an execution under `catch`
+        let gated = std::thread::current().name() == Some("verif-gated-blocking");
+        if !gated && !QUIET.with(|q| q.get()) && !QUIET_ALL.load(SeqCst) {
             default(info);
         }
     }));
@@ -197,6 +199,10 @@ impl Chooser {
 
     pub fn points(&self) -> u32 {
         self.idx
+    }
+    /// The deviations this execution was started with: together with the all-default rule they identify it.
+    pub fn deviations(&self) -> Deviations {
+        self.devs.clone()
     }
     pub fn unused_deviation(&self) -> bool {
         self.next_dev < self.devs.len()
@@ -639,6 +645,32 @@ pub fn load_known_findings() -> KnownFindings {
         }
     }
     KnownFindings { open }
+}
+
+pub static REPLAY_MODE: std::sync::atomic::AtomicBool = std::sync::atomic::AtomicBool::new(false);
+pub static EARLY_TIER_THOROUGH: std::sync::atomic::AtomicBool = std::sync::atomic::AtomicBool::new(false);
+
+/// Ends the whole check at once with one violation that an execution has established beyond doubt, when
+/// letting that execution (or the process) continue would be undefined behaviour - e.g. a task scope was left
+/// while its tasks were still running, so they would go on using a stack frame that is gone. Only one thread
+/// gets through; the evidence records that the exploration was ended by the verdict.
+pub fn early_verdict(property: &'static str, key: &str, what: String, replay: Value, why_now: &str) -> ! {
+    static ONCE: std::sync::Mutex<()> = std::sync::Mutex::new(());
+    let _g = ONCE.lock().unwrap_or_else(|e| e.into_inner());
+    if REPLAY_MODE.load(SeqCst) {
+        println!("VIOLATION property={property} replay=<given>");
+        println!("  {}", what.replace('\n', "\n  "));
+        std::process::exit(1);
+    }
+    let mut rep = Report::new(property, "model_checking");
+    rep.violations.push(Violation { key: key.into(), what, replay });
+    rep.coverage = json!({
+        "states": 0, "transitions": 0, "evaluations": 0, "exhaustive": false,
+        "ended_by_first_violation": why_now,
+    });
+    let tier = if EARLY_TIER_THOROUGH.load(SeqCst) { Tier::Thorough } else { Tier::Quick };
+    let code = finish(rep, tier, 0, 0.0);
+    std::process::exit(code);
 }
 
 /// Writes evidence, prints VIOLATION / KNOWN-FINDING lines, returns the process exit code.
